@@ -25,11 +25,44 @@ Definition TB (t : N) : N := 171 * 2 ^ 120 + t.          (* trace id "ab00..00" 
 Definition SB (i : N) : N := if i =? 0 then 0 else 14771806777775226880 + i.   (* span id 0xcd00000000000000 + i *)
 Definition svc_pool : list str :=
   [[65]; [66]; [67]; [99;104;101;99;107;111;117;116]; [100;98]; [97;117;116;104;45;115;118;99];
-   [88;49]; [88;50]; [89;49]; [89;50]].   (* A B C checkout db auth-svc X1 X2 Y1 Y2 *)
+   [88;49]; [88;50]; [89;49]; [89;50]; []].   (* A B C checkout db auth-svc X1 X2 Y1 Y2 "" *)
 Definition sv (k : nat) : str := nth k svc_pool [].
 Definition nm (k : N) : str := if k <? 10 then [111; 112; 48 + k] else [111; 112; 48 + k / 10; 120].  (* "op<k>", k>=10: "op<k/10>x" *)
 Definition E1 (t i p : N) (s : nat) (n : N) (st en : N) (code : N) : span :=
   E (TB t) (SB i) (SB p) (sv s) (nm n) st en code.
+(* an OTLP span of a request (the service comes from its resource) *)
+Definition O1 (t i p : N) (n : N) (st en : N) (code : N) : otlp_span :=
+  mkOtlp (be_bytes 16 (TB t)) (be_bytes 8 (SB i)) (if p =? 0 then [] else be_bytes 8 (SB p)) (nm n) st en
+         (if code =? 3 then None else Some code).
+Definition host_key : str := [104;111;115;116;46;110;97;109;101].   (* "host.name" *)
+(* a ResourceSpans entry of kind k (what the harness sent):
+   0 service.name only; 1 nil Resource; 2 attributes without service.name; 3 service.name with an
+   integer value; 4 two service.name attributes (the first one "zzz"); 5 service.name between others.
+   Several ScopeSpans are flattened: one scope per span when [split] *)
+Definition R1 (k : N) (s : nat) (split : bool) (spans : list otlp_span) : otlp_resource :=
+  let sn := service_name_key in
+  let attrs :=
+    if k =? 0 then Some [(sn, Some (sv s))]
+    else if k =? 1 then None
+    else if k =? 2 then Some [(host_key, Some [104])]
+    else if k =? 3 then Some [(sn, None)]
+    else if k =? 4 then Some [(sn, Some [122;122;122]); (sn, Some (sv s))]
+    else Some [(host_key, Some [104]); (sn, Some (sv s)); (host_key, Some [105])] in
+  mkRes attrs (if split then map (fun o => [o]) spans else [spans]).
+(* all events of a scenario = the requests in ingest order *)
+Definition events_of (reqs : list (list otlp_resource)) : list span := flat_map request_events reqs.
+
+(* the stored spans (trace, span id, service) read back with a "*" query, as a multiset *)
+Definition stored_key (e : span) : str * str * str := (sp_trace e, sp_id e, sp_service e).
+Definition key_eqb (a b : str * str * str) : bool :=
+  str_eqb (fst (fst a)) (fst (fst b)) && str_eqb (snd (fst a)) (snd (fst b)) && str_eqb (snd a) (snd b).
+Definition count_key (k : str * str * str) (l : list (str * str * str)) : nat := length (filter (key_eqb k) l).
+Definition check_stored (evs : list span) (obs : list (N * N * nat)) : bool :=
+  let m := map stored_key evs in
+  let o := map (fun x => (tid (TB (fst (fst x))), sid (SB (snd (fst x))), sv (snd x))) obs in
+  Nat.eqb (length m) (length o)
+  && forallb (fun k => Nat.eqb (count_key k m) (count_key k o)) m.
+
 Definition tid1 (t : N) : str := tid (TB t).
 Definition sid1 (i : N) : str := sid (SB i).
 
